@@ -19,10 +19,12 @@ VARIANTS = [
     V("continue-always", Q, "            if ignore_errors:\n                continue\n\n            raise e", "            continue", "R10.4"),
     V("never-skip", Q, "            if ignore_errors:\n                continue\n\n            raise e", "            raise e", "R10.4"),
     V("sorted-annotations", Q, "    for annotation in annotations:", "    for annotation in sorted(annotations, key=lambda a: str(a.uuid)):", "R10.5"),
-    V("tag-mapping-before-term-mapping", L, "    if term_mapping is not None:\n        if label in term_mapping:\n            term = term_mapping[label]\n\n    if term is None and tag_mapping is not None:\n        if label in tag_mapping:\n            tags = tag_mapping[label]\n            return tags if isinstance(tags, list) else [tags]\n",
-      "    if term is None and tag_mapping is not None:\n        if label in tag_mapping:\n            tags = tag_mapping[label]\n            return tags if isinstance(tags, list) else [tags]\n\n    if term_mapping is not None:\n        if label in term_mapping:\n            term = term_mapping[label]\n", "R10.6"),
-    V("pinned-key-clobbered(F12)", L, "        key = key_mapping.get(label, key)", "        key = key_mapping.get(label)", "R10.6"),
-    V("select-by-key-not-value-only", L, "        return label_from_tag(tag, value_only=True, **kwargs)", "        return label_from_tag(tag, **kwargs)", "R10.6"),
+    V("tag-mapping-before-term-mapping", L, "    if term_mapping is not None:\n        if label in term_mapping:\n            return [data.Tag(term=term_mapping[label], value=label)]\n\n    if tag_mapping is not None:\n        if label in tag_mapping:\n            tags = tag_mapping[label]\n            return tags if isinstance(tags, list) else [tags]\n",
+      "    if tag_mapping is not None:\n        if label in tag_mapping:\n            tags = tag_mapping[label]\n            return tags if isinstance(tags, list) else [tags]\n\n    if term_mapping is not None:\n        if label in term_mapping:\n            return [data.Tag(term=term_mapping[label], value=label)]\n", "R10.6"),
+    V("pinned-key-clobbered(F12)", L, "    if key_mapping is not None:\n        if label in key_mapping:\n            term = data.term_from_key(key_mapping[label])\n            return [data.Tag(term=term, value=label)]\n", "    if key_mapping is not None:\n        key = key_mapping.get(label)\n", "R10.6"),
+    V("select-by-key-not-value-only", L, "        return label_from_tag(tag, **{\"value_only\": True, **kwargs})", "        return label_from_tag(tag, **kwargs)", "R10.6"),
+    V("value-only-fixed-next-to-kwargs(F21)", L, "        return label_from_tag(tag, **{\"value_only\": True, **kwargs})", "        return label_from_tag(tag, value_only=True, **kwargs)", "R10.7"),
+    V("mappings-skipped-for-explicit-term(F22)", L, "    if tag_mapping is not None:\n        if label in tag_mapping:", "    if term is None and tag_mapping is not None:\n        if label in tag_mapping:", "R10.6"),
     V("index-mod-len-plus-1", L, "        index = index % len(tags)", "        index = index % (len(tags) + 1)", "R10.6"),
     V("value-only-ignored", L, "    if value_only:\n        return tag.value\n", "", "R10.6"),
     V("empty-label-not-empty", L, "    if label in empty_labels:\n        return []\n", "", "R10.6"),
@@ -35,7 +37,7 @@ VARIANTS = [
     # neutral
     V("N-math-floor", S, "    return int(time * recording.samplerate)", "    import math\n\n    return math.floor(time * recording.samplerate)", None),
     V("N-times-star-reciprocal", S, "        end_time = end_time / recording.time_expansion\n\n    geometry", "        end_time = end_time * (1 / recording.time_expansion)\n\n    geometry", None),
-    V("N-key-mapping-in-test", L, "        key = key_mapping.get(label, key)", "        if label in key_mapping:\n            key = key_mapping[label]", None),
+    V("N-key-mapping-get", L, "    if key_mapping is not None:\n        if label in key_mapping:\n            term = data.term_from_key(key_mapping[label])\n            return [data.Tag(term=term, value=label)]\n", "    if key_mapping is not None and label in key_mapping:\n        return [data.Tag(term=data.term_from_key(key_mapping[label]), value=label)]\n", None),
     V("N-handler-raise-bare", Q, "            raise e", "            raise", None),
     # wave 6: the codec the labels are made with
     V("key-from-term-name(C01/R01.7)", "src/soundevent/data/compat.py", "def key_from_term(term: Term) -> str:\n    return term.label", "def key_from_term(term: Term) -> str:\n    return term.name", "C01/R01.7"),
